@@ -2748,12 +2748,15 @@ class PatternParser:
 
 
 @guarded
-def q02t(ctx, lens=(2, 2), with_empty=False, domain='letters'):
-    """Q02t: the whole of build() with default settings: the language of the PRINTED pattern is exactly the set of test cases"""
-    ob = Obligation('Q02t[%s%s]%s' % (','.join(map(str, lens)), '+empty' if with_empty else '', '' if domain == 'letters' else '[%s]' % domain), q02t.__doc__)
+def q02t(ctx, lens=(2, 2), with_empty=False, domain='letters', settings=None):
+    """Q02t: the whole of build(): the language of the PRINTED pattern is exactly the set of test cases (and flags, anchors, group kinds are as requested)"""
+    settings = dict(settings or {})
+    stag = ''.join('[%s]' % k for k in sorted(settings) if settings[k])
+    ob = Obligation('Q02t[%s%s]%s%s' % (','.join(map(str, lens)), '+empty' if with_empty else '', '' if domain == 'letters' else '[%s]' % domain, stag), q02t.__doc__)
     dom_txt = {'letters': 'letters a..z', 'ascii': 'printable ASCII (U+0020..U+007E, so every regex metacharacter) plus \\\\n and \\\\t'}[domain]
-    ob.domain = ('%d test cases of %s characters, each %s (every equality pattern)%s; default settings' % (
-        len(lens), '/'.join(map(str, lens)), dom_txt, ' plus the empty test case' if with_empty else ''))
+    ob.domain = ('%d test cases of %s characters, each %s (every equality pattern)%s; settings: %s' % (
+        len(lens), '/'.join(map(str, lens)), dom_txt, ' plus the empty test case' if with_empty else '',
+        ', '.join(k for k in sorted(settings) if settings[k]) or 'default'))
     ob.bound = 'exactly these lengths'
     cases = [[z3.BitVec('s%d_%d' % (i, j), 32) for j in range(n)] for i, n in enumerate(lens)]
     allv = [v for c in cases for v in c]
@@ -2763,6 +2766,14 @@ def q02t(ctx, lens=(2, 2), with_empty=False, domain='letters'):
         assume = [z3.Or(z3.And(z3.UGE(v, BV(0x20, 32)), z3.ULE(v, BV(0x7E, 32))), v == BV(10, 32), v == BV(9, 32)) for v in allv]
     fields = ctx.mir.structs.get('RegExpConfig')
     off = {k: (BV(1, 32) if k.startswith('minimum_') else z3.BoolVal(False)) for k in fields}
+    names = {'repetitions': 'is_repetition_converted', 'verbose': 'is_verbose_mode_enabled', 'capture': 'is_capturing_group_enabled',
+             'no_start_anchor': 'is_start_anchor_disabled', 'no_end_anchor': 'is_end_anchor_disabled', 'escape': 'is_non_ascii_char_escaped'}
+    for k, val in settings.items():
+        if k not in names:
+            raise Inconclusive('setting %s is not supported by Q02t' % k)
+        off[names[k]] = z3.BoolVal(bool(val))
+    if settings.get('no_start_anchor') and settings.get('no_end_anchor'):
+        raise Inconclusive('both anchors disabled: RegExp::from then compiles the candidate with the regex engine (not modelled)')
     cfgv = config_value(ctx, off)
     ex = ctx.new_exec([(P(r'^<str as UnicodeSegmentation>::graphemes$'), m_graphemes_per_letter)] + make_gc_models(ctx))
     st = State(pc=list(assume))
@@ -2786,10 +2797,23 @@ def q02t(ctx, lens=(2, 2), with_empty=False, domain='letters'):
                 ob.classes_seen['panic'] = ob.classes_seen.get('panic', 0) + 1
                 continue
             items = list(o2.st.load(buf).items)
-            words, start, end = PatternParser(ex, o2.st, items, ctx.oracle).parse()
-            cls = re.sub(r'<[^>]*>', 'x', ''.join(chr(concrete(x)) if concrete(x) is not None else 'x' for x in items))
+            cls = re.sub(r'<[^>]*>', 'x', ''.join(chr(concrete(x)) if concrete(x) is not None else 'x' for x in items)).replace('\n', '/')
             ob.classes_seen[cls] = ob.classes_seen.get(cls, 0) + 1
-            if not (start and end):
+            if settings.get('verbose'):
+                head = [ord(ch) for ch in '(?x)']
+                if cps(items[:len(head)]) != head:
+                    bads.append(z3.And(*o2.st.pc))
+                    continue
+                items = strip_verbose_whitespace(items[len(head):])
+            txt = ''.join(chr(concrete(x)) if concrete(x) is not None else 'x' for x in items)
+            # group kinds: with capturing groups every group is capturing, without it none is
+            opens = [i for i in range(len(txt)) if txt[i] == '(' and (i == 0 or txt[i - 1] != '\\' or (i > 1 and txt[i - 2] == '\\'))]
+            noncap = [i for i in opens if txt[i:i + 3] == '(?:']
+            if (settings.get('capture') and noncap) or (not settings.get('capture') and len(noncap) != len(opens)):
+                bads.append(z3.And(*o2.st.pc))
+                continue
+            words, start, end = PatternParser(ex, o2.st, items, ctx.oracle).parse()
+            if start != (not settings.get('no_start_anchor')) or end != (not settings.get('no_end_anchor')):
                 bads.append(z3.And(*o2.st.pc))
                 continue
             bads.append(z3.And(*o2.st.pc, z3.Not(set_eq(inputs, words))))
